@@ -2,7 +2,7 @@
 """Syntactic mutation sweep over one source file of pitt-rnel/pyrtma, judged by whole checks (`./check Cnn`).
 
     tools/mutate_check.py <worktree> <relative file> --checks C09[,C10...] [--only f1,f2] [--skip f1,f2]
-                          [--limit N] [--lines l1,l2] [--from N] [--out file.jsonl] [--timeout S] [--dry]
+                          [--limit N] [--lines l1,l2] [--from N] [--every K [--offset O]] [--out file.jsonl] [--timeout S] [--dry]
 
 The worktree is a scratch `git worktree` of /repo (never /repo itself).  For every mutant (comparison / boolean operator
 swaps, 0<->1 constants, deleted simple statements, negated conditions, swapped `continue`/`break`, +/- swaps) of the file
@@ -34,6 +34,7 @@ tree = ast.parse(src)
 _sdir = os.path.dirname(os.path.abspath(arg("--out"))) if arg("--out") else None
 scratch = tempfile.mkdtemp(prefix="mutchk_", dir=_sdir)
 start_from = int(arg("--from", 1))
+every, offset = int(arg("--every", 1)), int(arg("--offset", 0))      # systematic sample: mutants with n % every == offset
 # the checks of the clone this tool lives in (never another clone: they would share its Lean build directory)
 VERIF = os.environ.get("VERIF_ROOT") or os.path.dirname(os.path.dirname(os.path.abspath(__file__)))
 dry = "--dry" in sys.argv
@@ -187,7 +188,7 @@ try:
         except SyntaxError:
             continue
         n += 1
-        if n < start_from:
+        if n < start_from or n % every != offset % every:
             continue
         if dry:
             print(json.dumps({"n": n, "kind": kind, "func": f, "line": getattr(node, "lineno", 0), "before": before,
